@@ -660,7 +660,9 @@ class PortCollection (object):
           return p
     if self._chain:
       p = self._chain[index]
-      if p.port_no not in self._masks:
+      if (p.port_no not in self._masks and
+          not any(q.port_no == p.port_no for q in self._ports)):
+        # (An updated version of the port shadows the chained one)
         return p
 
     raise IndexError("No key %s" % (index,))
